@@ -24,8 +24,18 @@ func init() { drivers["c11"] = c11 }
 // chunkedConn re-chunks what is read from the underlying pipe end.
 type chunkedConn struct {
 	net.Conn
-	sizes []int
-	i     int
+	sizes  []int
+	i      int
+	failAt int // the n-th Write fails (0: never); the bytes are not sent
+	writes int
+}
+
+func (c *chunkedConn) Write(p []byte) (int, error) {
+	c.writes++
+	if c.failAt > 0 && c.writes >= c.failAt {
+		return 0, vh.ErrInjected
+	}
+	return c.Conn.Write(p)
 }
 
 func (c *chunkedConn) Read(p []byte) (int, error) {
@@ -73,16 +83,20 @@ type pairCfg struct {
 	cChunk    []int
 	sChunk    []int
 	longHdr   int
+	sFailAt   int // the server's / client's n-th transport write fails
+	cFailAt   int
 }
 
 func digest(b []byte) string { h := sha1.Sum(b); return fmt.Sprintf("%x", h[:6]) }
 
 func runPair(pc pairCfg) (c, s hsres, deadlock bool) {
+	c.Exts, s.Exts = []string{}, []string{} // (never null in the log, also when a peer does not come back)
+	c.Err, s.Err = "no result", "no result"
 	a, b := net.Pipe()
 	defer a.Close()
 	defer b.Close()
-	cc := &chunkedConn{Conn: a, sizes: pc.cChunk}
-	sc := &chunkedConn{Conn: b, sizes: pc.sChunk}
+	cc := &chunkedConn{Conn: a, sizes: pc.cChunk, failAt: pc.cFailAt}
+	sc := &chunkedConn{Conn: b, sizes: pc.sChunk, failAt: pc.sFailAt}
 	d := ws.Dialer{Protocols: pc.cProtos, Extensions: pc.cExts, ReadBufferSize: pc.crb, WriteBufferSize: pc.cwb}
 	hdr := ""
 	if pc.cHeader {
@@ -199,6 +213,28 @@ func c11(c *ctx) {
 							emit(map[string]interface{}{"k": "pair", "key": key, "c": cr, "s": sr, "deadlock": dl}, fmt.Sprintf("pair/%v/%v/%s/%d/%d/%d", cr.OK, sr.OK, mode, pi, ei, long))
 						}
 					}
+				}
+			}
+		}
+	}
+	// ---- pairs over a transport whose n-th write fails on one side: neither peer may report success
+	for _, who := range []string{"server", "client"} {
+		for failAt := 1; failAt <= 4; failAt++ {
+			for _, wb := range []int{0, 16, 300} {
+				for _, long := range []int{0, 400} {
+					pc := pairCfg{cProtos: []string{"chat"}, sAccept: []string{"chat"}, sHasSel: true, cExts: extOffers[1], sExtMode: "deflate", sExtTable: nil,
+						cHeader: true, sHeader: true, longHdr: long, cwb: wb, swb: wb}
+					if who == "server" {
+						pc.sFailAt = failAt
+					} else {
+						pc.cFailAt = failAt
+					}
+					key := fmt.Sprintf("pairfault/%s/%d/%d/%d", who, failAt, wb, long)
+					if !vh.Only(key) {
+						continue
+					}
+					cr, sr, dl := runPair(pc)
+					emit(map[string]interface{}{"k": "pairfault", "key": key, "c": cr, "s": sr, "deadlock": dl, "who": who}, fmt.Sprintf("pairfault/%s/%v/%v", who, cr.OK, sr.OK))
 				}
 			}
 		}
